@@ -66,6 +66,8 @@ def run(ctx):
         nt = digest(text) if nontrivial_rule(r) else None
         ctx.case(nt, {"rule": text} if nt else None)
         cls = classify(r)
+        if worker.timed_out(ctx, rep):
+            continue
         if "ok" not in rep:
             viol(("C09/parse-fails/%s" % r["kind"]) if not cls else ("C09" + cls), "ParseRules failed on `%s`: %s" % (text, rep.get("error") or rep.get("panic") or rep), {"text": text})
             continue
@@ -90,6 +92,8 @@ def run(ctx):
         ctx.case(None)
         cls = classify(r)
         t1 = p0["text"]
+        if worker.timed_out(ctx, rep):
+            continue
         if "ok" not in rep:
             viol("C09/reparse-fails/%s%s" % (r["kind"], cls), "the library cannot read back its own `%s`: %s" % (t1, rep.get("error") or rep.get("panic")), {"text": t1})
             continue
@@ -136,6 +140,8 @@ def run(ctx):
     second = []
     for bl, rep in zip(blocks, reps):
         bcls = next((classify(r) for r in bl if classify(r) == "/equals-in-path"), "")
+        if worker.timed_out(ctx, rep):
+            continue
         if "ok" not in rep:
             ctx.case(None)
             viol("C09/block/pipeline-fails" if not bcls else "C09" + bcls, "Merge+Sort+Format failed: %s" % (rep.get("error") or rep.get("panic")), {"block": [rulegen.canon(r) for r in bl]})
@@ -165,6 +171,8 @@ def run(ctx):
         padded = "  " in T.replace("\n  ", "\n")
         ctx.case(digest(T) if padded else None, {"block": T} if padded else None)
         kinds = sorted({r["kind"] for r in bl})
+        if worker.timed_out(ctx, rep):
+            continue
         if "ok" not in rep:
             viol("C09/block/reparse-fails/%s" % "+".join(kinds)[:60], "the library cannot read back its formatted block: %s\n%s" % (rep.get("error") or rep.get("panic"), T), {"block": T})
             continue
@@ -273,6 +281,8 @@ def files(ctx, n, viol):
     for c, rep in zip(cases, reps):
         text, intent, abi, alias, name, att, flags, xattrs = c
         ctx.case(digest(text) if len(intent) > 1 else None)
+        if worker.timed_out(ctx, rep):
+            continue
         if "ok" not in rep:
             viol("C09/file/parse-fails", "Parse failed: %s\n%s" % (rep.get("error") or rep.get("panic"), text[:400]), {"text": text})
             continue
@@ -312,6 +322,8 @@ def files(ctx, n, viol):
     reps = batched(ctx, reqs)
     for (c, ok), rep in zip(second, reps):
         ctx.case(None)
+        if worker.timed_out(ctx, rep):
+            continue
         if "ok" not in rep:
             viol("C09/file/reparse-fails", "the library cannot read back the file it rendered: %s\n%s" % (rep.get("error") or rep.get("panic"), ok["text"][:400]), {"text": ok["text"]})
             continue
